@@ -4,7 +4,7 @@
    oracles glob_match / ignore_match are arbitrary.  [reachable] = the state
    after tailer.New on any tree over U followed by any sequence of
    Create/Mkdir/Delete/Rename/Chmod/Append/Poll/StreamPoll. *)
-From V Require Import Base.Bytes Tail.Paths Proofs.PathsProofs.
+From V Require Import Base.Bytes Tail.Paths Proofs.PathsProofs Proofs.PathsOnce.
 Local Open Scope N_scope.
 
 (* every history is covered by [reachable] *)
@@ -73,6 +73,22 @@ Proof.
   repeat split; auto.
 Qed.
 
+(* over the whole history: without Rename (a file rotated back under an old
+   name is legitimately re-read from its start), no line of a file is ever
+   forwarded twice under a path - however often the patterns are polled, however
+   many patterns match, across deletion and re-creation of the path.
+   [reachable_nr]: tailer.New on a tree whose inodes are < 10 (fresh ones are
+   10 + operation index), then any sequence of operations other than Rename *)
+Theorem C18_no_redelivery_without_rename :
+  forall U pats g ig s, reachable_nr U pats g ig s -> NoDup (map key (out s)).
+Proof. exact no_redelivery. Qed.
+
+Theorem C18_rename_free_histories_reachable_nr :
+  forall U pats g ig t l h,
+    wf_tree U t -> (forall p n, t p = Some n -> ino_of n < 10) -> Forall nr h ->
+    reachable_nr U pats g ig (run U pats g ig (start U pats g ig t l) h).
+Proof. exact run_reachable_nr. Qed.
+
 (* ---- the code before fix C18-stream-leak ---- *)
 
 Definition U4 : list path := [0; 1; 2; 3].
@@ -131,6 +147,8 @@ Print Assumptions C18_histories_reachable.
 Print Assumptions C18_complete_after_poll.
 Print Assumptions C18_never_dir_or_ignored.
 Print Assumptions C18_single_stream.
+Print Assumptions C18_no_redelivery_without_rename.
+Print Assumptions C18_rename_free_histories_reachable_nr.
 Print Assumptions C18_never_dir_old_refuted.
 Print Assumptions C18_complete_after_poll_old_refuted.
 Print Assumptions C18_single_stream_without_lookup_refuted.
